@@ -646,6 +646,7 @@ class FnEdit:
         self.specof = None
         self.sig = None
         self.untransmute = False
+        self.inlines = []
 
 
 class Generator:
@@ -844,6 +845,8 @@ class Generator:
                     e.specof = tok[1]
                 elif c == 'untransmute':
                     e.untransmute = True
+                elif c == 'inline':
+                    e.inlines.append((tok[1], tok[2]))
                 elif c == 'sig':
                     e.sig = d[len('sig'):].strip()
                 elif c == 'selfmut':
@@ -1134,6 +1137,75 @@ class Generator:
         text = edit.sig + ' ' + body
         self._emit_fn(text, frel, line0, '%s!' % macro, kv, edit, trel, tline)
 
+
+    def _inline_stmt_macros(self, text, specs):
+        """`//@ inline FILE MACRO`: every statement-position invocation `MACRO!(args);` inside the function is replaced by the body of
+        the macro's (single) rule.  A closure-valued argument `|p1, p2| BODY` applied in the body as `$name(a1, a2)` becomes
+        `{ let p1 = a1; let p2 = a2; BODY }` (beta-reduction: the closure is called with the evaluated arguments); every other
+        argument is substituted textually.  R12-inline, counted per invocation."""
+        for frel, macro in specs:
+            f = self.file(frel)
+            its = f.find_named('macro', macro)
+            if len(its) != 1:
+                raise Inconclusive('macro %s in %s: found %d' % (macro, frel, len(its)))
+            mac = its[0]
+            names = self._macro_params(f, mac, macro)
+            m = f.m
+            p0 = m.find('(', mac.body_open)
+            p1 = rsscan.match_close(m, p0)
+            mt = re.match(r'\s*=>\s*[\(\{]', m[p1 + 1:])
+            if not mt:
+                raise Inconclusive('macro %s: cannot find rule body' % macro)
+            bo = p1 + 1 + mt.end() - 1
+            bc = rsscan.match_close(m, bo)
+            body_src = f.src[bo + 1:bc]
+            n = 0
+            while True:
+                tm = rsscan.mask(text)
+                iv = re.search(r'\b%s\s*!\s*\(' % re.escape(macro), tm)
+                if not iv:
+                    break
+                op = iv.end() - 1
+                cl = rsscan.match_close(tm, op)
+                parts = split_top_commas(tm, op + 1, cl, closure_params=True)
+                args = [re.sub(r'//[^\n]*', '', text[x:y]).strip() for x, y in parts]
+                if len(args) != len(names):
+                    raise Inconclusive('macro %s arity mismatch at an inlined invocation' % macro)
+                body = body_src
+                for (nm, sep), val in zip(names, args):
+                    cm = re.match(r'\|([^|]*)\|\s*(.*)$', val, re.S)
+                    if cm:
+                        params = [q.strip() for q in cm.group(1).split(',') if q.strip()]
+                        cbody = cm.group(2).strip()
+                        while True:
+                            bm = rsscan.mask(body)
+                            am = re.search(r'\$%s\s*\(' % nm, bm)
+                            if not am:
+                                break
+                            aop = am.end() - 1
+                            acl = rsscan.match_close(bm, aop)
+                            aparts = split_top_commas(bm, aop + 1, acl)
+                            aargs = [body[x:y].strip() for x, y in aparts]
+                            if len(aargs) != len(params):
+                                raise Inconclusive('macro %s: closure argument %s applied with %d arguments' % (macro, nm, len(aargs)))
+                            lets = ' '.join('let %s = %s;' % (re.sub(r':.*$', '', pp), aa) for pp, aa in zip(params, aargs))
+                            body = body[:am.start()] + '{ ' + lets + ' ' + cbody + ' }' + body[acl + 1:]
+                    else:
+                        body = re.sub(r'\$%s\b' % nm, lambda _m, v=val: v, body)
+                if '$' in rsscan.mask(body):
+                    raise Inconclusive('macro %s: unsubstituted $ remains after inlining' % macro)
+                # swallow the `;` that follows the invocation
+                end = cl + 1
+                if tm[end:end + 1] == ';':
+                    end += 1
+                text = text[:iv.start()] + '; { ' + body + ' }' + text[end:]   # leading `;`: a loop with invariants directly before a block confuses the Verus parser
+                n += 1
+            if n == 0:
+                raise Inconclusive('inline requested but no invocation of %s!' % macro)
+            self._count('R12-inline', n)
+            self.log.append({'rule': 'R12-inline', 'macro': macro, 'count': n})
+        return text
+
     def _emit_fn(self, text, frel, line0, path, kv, edit, trel, tline):
         fhits = frame_scan(text)
         if fhits:
@@ -1153,6 +1225,8 @@ class Generator:
             m0 = rsscan.mask(text)
             bo0 = rsscan.find_body_open(m0, re.search(r'\bfn\b', m0).start())
             text = text[:bo0] + '{ }' + '\n' * text[bo0:].count('\n')
+        if edit.inlines and not fhits:
+            text = self._inline_stmt_macros(text, edit.inlines)
         text = self._apply_rules(text, frel, line0)
         if edit.selfmut:
             # R15: `mut self` receiver (unsupported by Verus) -> `self` moved into a mutable local of the given name; every
